@@ -1,20 +1,20 @@
 \* generated by gencfg.py - edit there
 SPECIFICATION Spec
 CONSTANTS
- Kind = "counter"
- Replicas = {1, 2, 3, 4}
- MaxLocal = 6
+ Kind = "doc"
+ Replicas = {1, 2, 3}
+ MaxLocal = 5
  MoreLocal = {}
  MaxBatch = 1
  Keys = {"a"}
- Deltas = {1, 7, 13, 8, 5}
+ Deltas = {1}
  MaxTx = 0
  MaxBad = 0
  MaxRestore = 0
  MaxBadUnit = 0
- DocNKeys = 1
- DocShapes = {"p"}
- DocMaxBatch = 1
+ DocNKeys = 2
+ DocShapes = {"p", "o0", "o1", "o2", "a0", "a2", "oa", "ao", "o2a"}
+ DocMaxBatch = 2
  SimMode = TRUE
 INVARIANT Convergence
 INVARIANT RefOutcome
